@@ -1,6 +1,7 @@
 ----------------------- MODULE ReplicationSearchJudge -----------------------
 (* Judge for C19.  Every recorded line is                                      *)
-(*   [case |-> [kind, skew, style, prefix, present (tuple), first, cur, q],    *)
+(*   [case |-> [kind, skew, style, prefix, unit, pauses, pauselen (the time     *)
+(*              assignment), present (tuple), first, cur, q],                   *)
 (*    got  |-> [outcome ("ok" | "error" | "hang"), seq, state_seq, sec, nsec,  *)
 (*              count, reqs (tuple of [path, status, n]), ...]]                 *)
 (* produced by harness/cmd/c19 from the real Datasource.XxxStateAt.            *)
@@ -9,12 +10,14 @@ Lines == ndJsonDeserialize(IOEnv.REC)
 
 DirOfLine(ln)  == [present |-> {ln.case.present[i] : i \in 1 .. Len(ln.case.present)}, first |-> ln.case.first, cur |-> ln.case.cur]
 CaseOfLine(ln) == CaseOf(DirOfLine(ln), ln.case.q, NoDevs)
-RenderOfLine(ln) == [kind |-> ln.case.kind, skew |-> ln.case.skew, style |-> ln.case.style, prefix |-> ln.case.prefix]
+RenderOfLine(ln) == [kind |-> ln.case.kind, skew |-> ln.case.skew, style |-> ln.case.style, prefix |-> ln.case.prefix,
+                     unit |-> ln.case.unit, pauselen |-> ln.case.pauselen,
+                     pauses |-> {ln.case.pauses[i] : i \in 1 .. Len(ln.case.pauses)}]
 
 \* the search returned state n: sequence number (return value and State.SeqNum) and the timestamp read from its file
 Returned(ln, n) == LET g == ln.got   r == RenderOfLine(ln) IN
   /\ g.outcome = "ok" /\ g.seq = n /\ g.state_seq = n
-  /\ g.sec = Sec(r.kind, r.skew, TS(n)) /\ g.nsec = Nsec(r.kind, TS(n))
+  /\ g.sec = Sec(r, TS(n)) /\ g.nsec = Nsec(r.kind, TS(n))
 
 \* --- the property, clause by clause ---
 J_Terminates(ln)   == ln.got.outcome # "hang"
